@@ -290,6 +290,23 @@ func genSizeCases(r *common.Rand, n int) {
 				s.Outs[0].Sats, s.Outs[1].Sats = 1<<64-1, 2
 				kind, hyp = "total-out-wrap", false
 			}
+		case 7, 8: // no wrap, but the difference of the totals does not fit a signed 64-bit integer
+			if len(s.Ins) > 0 && len(s.Outs) > 0 {
+				for i := range s.Ins {
+					s.Ins[i].Sats = uint64(r.Intn(2000))
+				}
+				for i := range s.Outs {
+					s.Outs[i].Sats = uint64(r.Intn(2000))
+				}
+				big := []uint64{1<<63 + 5000, 1<<63 + 1, 1 << 63, 1<<64 - 70000, 1<<63 - 1}[r.Intn(5)]
+				if r.Bool() {
+					s.Ins[0].Sats = big
+					kind += "/inputs-exceed-outputs-by-2^63"
+				} else {
+					s.Outs[0].Sats = big
+					kind += "/outputs-exceed-inputs-by-2^63"
+				}
+			}
 		}
 		sizeCase(kind, s, q, hyp)
 	}
